@@ -176,7 +176,7 @@ def order_correspondence(ctx):
 
 
 # ---- the property, directly -----------------------------------------------------------------------------------
-def run_real(order, L, dt, k_total, jumps, state_name, warm=None):
+def run_real(order, L, dt, k_total, jumps, state_name, warm=None, traj=None, parallel=False):
     from mqt.yaqs import simulator
     from mqt.yaqs.core.data_structures.networks import MPO, MPS
     from mqt.yaqs.core.data_structures.noise_model import NoiseModel
@@ -188,6 +188,23 @@ def run_real(order, L, dt, k_total, jumps, state_name, warm=None):
     if warm is not None:
         # history: the same parameter object served an earlier run with ANOTHER schedule (possibly none)
         simulator.run(MPS(L, state=state_name), MPO.ising(L, 1.0, 0.7), p, NoiseModel([], scheduled_jumps=[jump_dict(j, dt) for j in warm]), parallel=False)
+    if traj:
+        # several trajectories of one run: a stochastic channel of negligible rate (1e-12: never fires, damps by 1e-13) makes the run count as
+        # noisy, so the front-end executes `traj` trajectories on ONE sampled noise model — each of them owes the scheduled jumps
+        import os
+
+        p.num_traj = int(traj)
+        nm = NoiseModel([{"name": "pauli_z", "sites": [0], "strength": 1e-12}], scheduled_jumps=[jump_dict(j, dt) for j in jumps])
+        saved = os.environ.get("YAQS_MAX_WORKERS")
+        os.environ["YAQS_MAX_WORKERS"] = "3"
+        try:
+            simulator.run(MPS(L, state=state_name), MPO.ising(L, 1.0, 0.7), p, nm, parallel=parallel)
+        finally:
+            if saved is None:
+                os.environ.pop("YAQS_MAX_WORKERS", None)
+            else:
+                os.environ["YAQS_MAX_WORKERS"] = saved
+        return np.array([np.real(np.asarray(o.trajectories)) for o in obs]), len(p.times)  # (observable, trajectory, column)
     nm = NoiseModel([], scheduled_jumps=[jump_dict(j, dt) for j in jumps])
     simulator.run(MPS(L, state=state_name), MPO.ising(L, 1.0, 0.7), p, nm, parallel=False)
     return np.array([np.real(o.results) for o in obs]), len(p.times)
@@ -236,10 +253,23 @@ def run_dense(L, dt, k_total, jumps, state_name):
 
 
 def jump_oracle(args):
-    real, n = run_real(args["order"], args["L"], args["dt"], args["k_total"], args["jumps"], args["state"], warm=args.get("warm"))
+    real, n = run_real(args["order"], args["L"], args["dt"], args["k_total"], args["jumps"], args["state"], warm=args.get("warm"),
+                       traj=args.get("traj"), parallel=bool(args.get("parallel")))
     if n != args["k_total"] + 1:
         return None  # grid length is C15's business
     ref = run_dense(args["L"], args["dt"], args["k_total"], args["jumps"], args["state"])
+    if args.get("traj"):
+        tol = 5e-3 if args["L"] > 2 else 1e-5
+        if real.ndim != 3 or real.shape[1] != args["traj"]:
+            return f"a run with {args['traj']} trajectories stored trajectories of shape {real.shape[1:]}"
+        for t in range(real.shape[1]):
+            err = np.max(np.abs(real[:, t, :] - ref), axis=0)
+            bad = [int(j) for j in np.nonzero(err > tol)[0]]
+            if bad:
+                return (f"order {args['order']}, {'parallel' if args.get('parallel') else 'serial'} run with {args['traj']} trajectories: trajectory {t} differs from "
+                        f"'apply once at t_k' by {err[bad[0]]:.3e} at column {bad[0]} (scheduled indices {[j[0] for j in args['jumps']]}); trajectory 0 "
+                        f"{'agrees' if t and np.max(np.abs(real[:, 0, :] - ref)) <= tol else 'is the first'}")
+        return None
     err = np.max(np.abs(real - ref), axis=0)
     tol = 5e-3 if args["L"] > 2 else 1e-5
     bad = [int(j) for j in np.nonzero(err > tol)[0]]
@@ -274,6 +304,19 @@ def search(ctx):
             ctx.count("dense_directed")
             if why:
                 ctx.violation(f"jump-dense:equal-times", why, {"oracle": "jump", "args": args})
+    # several trajectories on one sampled noise model, serial and through real worker processes
+    for k, (order, par) in enumerate([(1, False), (2, False), (2, True), (1, True)][: 3 if ctx.quick else 4]):
+        args = dict(order=order, L=2, dt=0.05, k_total=5, jumps=[(2, [0], "x"), (4, [1], "y")] if k % 2 else [(3, [0, 1], "crosstalk_xy")], state="x+", traj=4, parallel=par)
+        try:
+            with common.time_limit(180):
+                why = jump_oracle(args)
+        except common.HardTimeout:
+            ctx.notes.append("multi-trajectory jump oracle timed out")
+            continue
+        ctx.case(nontrivial_key=("multi-traj", k))
+        ctx.count("dense_multi_trajectory_" + ("parallel" if par else "serial"))
+        if why:
+            ctx.violation("jump-dense:multi-trajectory", why, {"oracle": "jump", "args": args})
     n = ctx.scale(10, 80)
     for i in range(n):
         L = 2 if i % 3 else 3
